@@ -131,6 +131,7 @@ def config_get(ctx: click.Context, key: str) -> None:
         thai-lint config get greeting
     """
     cfg = ctx.obj["config"]
+    key = key.replace("-", "_")  # keys are normalized to underscores when the file is loaded
 
     if key not in cfg:
         click.echo(f"Configuration key not found: {key}", err=True)
@@ -202,6 +203,7 @@ def config_set(ctx: click.Context, key: str, value: str) -> None:
         thai-lint config set max_retries 5
     """
     cfg = ctx.obj["config"]
+    key = key.replace("-", "_")  # keys are normalized to underscores when the file is loaded
     converted_value = _convert_value_type(value)
     cfg[key] = converted_value
 
